@@ -1,7 +1,7 @@
 #!/bin/bash
 # check_seeds.sh [names...]: run every kept seeded change through the property's own check (scratch copy) and report detection
 cd /verif
-for d in ${@:-$(ls seeded)}; do
+for d in ${@:-$(ls seeded | grep -v retired)}; do
   p=$(python3 -c "import json;print(json.load(open('seeded/$d/meta.json'))['property'])")
   out=$(tools/seedcheck.py seeded/$d/patch.diff $p 2>&1)
   if echo "$out" | grep -q "rc=1"; then echo "$d ($p): DETECTED  $(echo "$out" | grep -c finding:) finding(s): $(echo "$out" | grep -o '\[C[0-9][0-9]/[^]]*\]' | head -2 | tr '\n' ' ')"; else echo "$d ($p): MISSED"; echo "$out" | tail -3; fi
